@@ -593,7 +593,7 @@ def run(chk):
                 'latest: checkpoint times of different digit counts; constants: distinct key orders; driver: distinct '
                 '(saveStep, N, M, ranks first / restart / unsplit)')
     prog = regenerate(chk)
-    chk.proof_side(build=not getattr(chk, 'no_build', False))
+    chk.proof_side(build=not getattr(chk, 'no_build', False), extra_props=('C18Extra',))
     work = tempfile.mkdtemp(prefix='pgc18_')
     drv = common.LeanDriver('C17.lean')
     state = {}
